@@ -13,13 +13,18 @@ SPELLINGS_OTHER = ["sha3_256", "SHA3-256", "sha224", "SHA-224", "blake2b", "BLAK
 
 def decorate(rng, c):
     """choose the real-level details (algorithm spelling, checksum case) of a token-level call."""
-    if c["op"] == "so" and c["p"] is not None and c.get("ck", "n") != "n":
+    preset = (c.get("real") or {}).get("bad")
+    if c["op"] == "so" and c.get("ck", "n") != "n":
         c["real"] = {"algo": rng.choice(SPELLINGS_PRE + SPELLINGS_OTHER), "case": rng.choice(["lower", "upper"])}
+        if c["ck"] == "b":
+            c["real"]["bad"] = preset or rng.choice(["flip", "flip", "nonascii", "short", "accent"])       # every wrong checksum is just "wrong"
     if c["op"] == "so" and c["p"] is not None and rng.random() < 0.2:
         c.setdefault("real", {})["add"] = rng.choice(SPELLINGS_OTHER + SPELLINGS_PRE)
     if c["op"] == "dii":
         c["real"] = {"algo": rng.choice(SPELLINGS_PRE if c["pre"] else SPELLINGS_OTHER),
                      "case": rng.choice(["lower", "upper"])}
+        if not c["ok"]:
+            c["real"]["bad"] = preset or rng.choice(["flip", "flip", "nonascii", "short", "accent"])
     if c["op"] == "gh":
         c["real"] = {"algo": rng.choice(SPELLINGS_PRE + SPELLINGS_OTHER)}
     return c
@@ -34,6 +39,10 @@ def alphabet(kind, pids=(1, 2, 3), contents=None, never=(100,), fmts=(0, 1), ver
     if obj:
         for b, n in contents.items():
             A.append({"op": "so", "p": None, "b": b, "n": n})
+            if kind in ("all", "valid"):
+                # without a pid the validation arguments are not looked at: the object is stored, nothing else is left
+                for sz, ck in (("b", "n"), ("n", "b")):
+                    A.append({"op": "so", "p": None, "b": b, "n": n, "sz": sz, "ck": ck})
             for p in pids:
                 A.append({"op": "so", "p": p, "b": b, "n": n})
                 if kind in ("all", "valid"):
